@@ -358,7 +358,7 @@ pub fn main(args: &Args) -> Report {
         return rep;
     }
     let thorough = args.thorough();
-    let n_cases = if thorough { 400 } else { 90 };
+    let n_cases = if thorough { 3000 } else { 90 };
     let deadline = Instant::now() + Duration::from_secs(args.budget_s(150, 2400));
     let seed = args.seed;
     let (out, done) = par_cases(n_cases, threads(), Some(deadline), |k| run_case(seed, k, thorough, None));
